@@ -214,3 +214,106 @@ Proof.
   assert (c * c3 <= 0) by (rewrite <- (Rmult_0_l c3); apply Rmult_le_compat_r; assumption).
   lra.
 Qed.
+
+(* ---- service time ------------------------------------------------------------
+   The time-dependent branch of every model replaces the peak (principal or equivalent) stress smax of a load
+   cycle by   s0(t) = ((smax^N g t) / B + smax^(N-2))^(1/(N-2)),   g = (1/T) int (s/smax)^N dt >= 0 the cycle
+   factor, N > 2 and B > 0 the fatigue parameters, t the service time, before raising it to the Weibull modulus. *)
+Section Time.
+Variable pw : R -> R -> R.
+Hypothesis pw_nonneg : forall x m, 0 <= x -> 0 <= pw x m.
+Hypothesis pw_mono : forall x y m, 0 <= x -> x <= y -> pw x m <= pw y m.
+Hypothesis pw_inv : forall x a, 0 <= x -> 0 < a -> pw (pw x a) (/ a) = x.
+
+Definition sig0 (N B g t smax : R) : R := pw (pw smax N * g * t / B + pw smax (N - 2)) (/ (N - 2)).
+
+Lemma growth_nonneg N B g t smax : 0 <= smax -> 0 <= g -> 0 < B -> 0 <= t -> 0 <= pw smax N * g * t / B.
+Proof.
+  intros Hs Hg HB Ht. unfold Rdiv. apply Rmult_le_pos; [|left; apply Rinv_0_lt_compat; exact HB].
+  apply Rmult_le_pos; [apply Rmult_le_pos|]; [apply pw_nonneg; exact Hs|exact Hg|exact Ht].
+Qed.
+
+(* at zero service time the peak stress itself is used *)
+Theorem sig0_zero_time N B g smax : 0 <= smax -> 2 < N -> sig0 N B g 0 smax = smax.
+Proof.
+  intros Hs HN. unfold sig0.
+  replace (pw smax N * g * 0 / B + pw smax (N - 2)) with (pw smax (N - 2)) by (unfold Rdiv; ring).
+  apply pw_inv; lra.
+Qed.
+
+(* it grows with the service time ... *)
+Theorem sig0_mono_time N B g t t' smax :
+  0 <= smax -> 0 <= g -> 0 < B -> 0 <= t -> t <= t' -> sig0 N B g t smax <= sig0 N B g t' smax.
+Proof.
+  intros Hs Hg HB Ht Htt. unfold sig0.
+  pose proof (growth_nonneg N B g t smax Hs Hg HB Ht) as G0.
+  pose proof (pw_nonneg smax (N - 2) Hs) as P0.
+  apply pw_mono; [lra|].
+  apply Rplus_le_compat_r. unfold Rdiv. apply Rmult_le_compat_r; [left; apply Rinv_0_lt_compat; exact HB|].
+  apply Rmult_le_compat_l; [|exact Htt]. apply Rmult_le_pos; [apply pw_nonneg; exact Hs|exact Hg].
+Qed.
+
+(* ... and is never below the peak stress *)
+Theorem sig0_ge_peak N B g t smax : 0 <= smax -> 0 <= g -> 0 < B -> 0 <= t -> 2 < N -> smax <= sig0 N B g t smax.
+Proof.
+  intros Hs Hg HB Ht HN. rewrite <- (sig0_zero_time N B g smax Hs HN) at 1.
+  apply sig0_mono_time; try assumption; lra.
+Qed.
+
+Lemma sig0_nonneg N B g t smax : 0 <= smax -> 0 <= g -> 0 < B -> 0 <= t -> 0 <= sig0 N B g t smax.
+Proof.
+  intros Hs Hg HB Ht. unfold sig0. apply pw_nonneg.
+  pose proof (growth_nonneg N B g t smax Hs Hg HB Ht). pose proof (pw_nonneg smax (N - 2) Hs). lra.
+Qed.
+
+(* the cycle factor is a non-negative combination of non-negative terms *)
+Lemma cycle_factor_nonneg (N T : R) (wr : list (R * R)) :
+  0 < T -> (forall x, In x wr -> 0 <= fst x /\ 0 <= snd x) ->
+  0 <= sumR (map (fun x => fst x * pw (snd x) N) wr) / T.
+Proof.
+  intros HT H. unfold Rdiv. apply Rmult_le_pos; [|left; apply Rinv_0_lt_compat; exact HT].
+  induction wr as [|x r IH]; cbn; [lra|].
+  assert (0 <= fst x * pw (snd x) N).
+  { destruct (H x (or_introl eq_refl)) as [A B]. apply Rmult_le_pos; [exact A|apply pw_nonneg; exact B]. }
+  assert (0 <= sumR (map (fun x0 => fst x0 * pw (snd x0) N) r)) by (apply IH; intros y Hy; apply H; right; exact Hy).
+  lra.
+Qed.
+
+(* log-reliability of one element after service time t: the points carry (peak stress, cycle factor) *)
+Definition logR_t (k V m N B t : R) (pg : list (R * R)) : R :=
+  - k * V * sumR (map (fun sg => pw (sig0 N B (snd sg) t (fst sg)) m) pg).
+
+(* a longer service time never increases the reliability *)
+Theorem logR_time_antitone k V m N B t t' pg :
+  0 <= k -> 0 <= V -> 0 < B -> 0 <= t -> t <= t' ->
+  (forall sg, In sg pg -> 0 <= fst sg /\ 0 <= snd sg) ->
+  logR_t k V m N B t' pg <= logR_t k V m N B t pg.
+Proof.
+  intros Hk HV HB Ht Htt H. unfold logR_t.
+  assert (S : sumR (map (fun sg => pw (sig0 N B (snd sg) t (fst sg)) m) pg) <=
+              sumR (map (fun sg => pw (sig0 N B (snd sg) t' (fst sg)) m) pg)).
+  { induction pg as [|x r IH]; cbn; [lra|].
+    destruct (H x (or_introl eq_refl)) as [A Bq].
+    assert (pw (sig0 N B (snd x) t (fst x)) m <= pw (sig0 N B (snd x) t' (fst x)) m).
+    { apply pw_mono; [apply sig0_nonneg; assumption|apply sig0_mono_time; assumption]. }
+    assert (sumR (map (fun sg => pw (sig0 N B (snd sg) t (fst sg)) m) r) <=
+            sumR (map (fun sg => pw (sig0 N B (snd sg) t' (fst sg)) m) r)) by (apply IH; intros y Hy; apply H; right; exact Hy).
+    lra. }
+  assert (0 <= k * V) by (apply Rmult_le_pos; assumption).
+  assert (k * V * sumR (map (fun sg => pw (sig0 N B (snd sg) t (fst sg)) m) pg) <=
+          k * V * sumR (map (fun sg => pw (sig0 N B (snd sg) t' (fst sg)) m) pg)) by (apply Rmult_le_compat_l; assumption).
+  lra.
+Qed.
+
+(* at zero service time it is the static law on the peak stresses *)
+Theorem logR_zero_time k V m N B pg :
+  2 < N -> (forall sg, In sg pg -> 0 <= fst sg) ->
+  logR_t k V m N B 0 pg = - k * V * sumR (map (fun sg => pw (fst sg) m) pg).
+Proof.
+  intros HN H. unfold logR_t. f_equal.
+  induction pg as [|x r IH]; cbn; [reflexivity|].
+  rewrite (sig0_zero_time N B (snd x) (fst x) (H x (or_introl eq_refl)) HN).
+  f_equal. apply IH. intros y Hy. apply H. right. exact Hy.
+Qed.
+
+End Time.
